@@ -4,6 +4,7 @@ import (
 	"bytes"
 	"errors"
 	"fmt"
+	"strings"
 	"testing"
 
 	enc "github.com/dapr/kit/schemes/enc/v1"
@@ -463,4 +464,49 @@ func TestOptionSweep(t *testing.T) {
 			}
 		}
 	}
+}
+
+// TestHeaderSizeLimit sweeps key names that put the total header length around the 64 KiB limit of the format
+// (the header must fit in the first 64 KiB for a reader): for every length Encrypt must either refuse, or produce
+// a document that kit's own Decrypt and the independent decoder both turn back into the plaintext. A document that
+// Encrypt produces but Decrypt cannot read is a violation of "Decrypt inverts Encrypt".
+func TestHeaderSizeLimit(t *testing.T) {
+	sec := vk.Sec("HeaderSizeLimit")
+	idx := 0
+	for n := 65250; n <= 65650; n++ {
+		for _, omitVariant := range []int{0, 1} { // key name in the manifest, or a long DecryptionKeyName instead
+			idx++
+			if !vk.Mine(idx) {
+				continue
+			}
+			name := strings.Repeat("k", n)
+			p := vk.Expand(uint64(n), 9)
+			km := vk.Expand(uint64(n)^0x6b65796d6174, 32+16+32+7)
+			v := &vault{identity: true, sym: km[:32], iv: km[32:48]}
+			opts := enc.EncryptOptions{WrapKeyFn: v.WrapFn(), Algorithm: enc.KeyAlgorithmAES256KW}
+			if omitVariant == 0 {
+				opts.KeyName, v.encName, v.decName = name, name, name
+			} else {
+				opts.KeyName, opts.DecryptionKeyName, v.encName, v.decName = "short", name, "short", name
+			}
+			journal := fmt.Sprintf("headersize{keyNameLen=%d variant=%d}", n, omitVariant)
+			ct, callErr, streamErr := enckit.Encrypt(journal, bytes.NewReader(p), opts, nil)
+			if callErr != nil || streamErr != nil {
+				sec.Case(true, vk.FP(journal), "headersize.refused-by-encrypt")
+				continue
+			}
+			hdrLen := len(headOf(ct))
+			out, callErr, streamErr := enckit.Decrypt(journal, bytes.NewReader(ct), enc.DecryptOptions{UnwrapKeyFn: v.UnwrapFn()}, nil)
+			if msg := sameOrFail("Decrypt(Encrypt(p))", p, out, callErr, streamErr); msg != "" {
+				t.Fatalf("C01 round trip violated: Encrypt produced a document (header %d bytes, key name of %d bytes) that Decrypt does not turn back into the plaintext: %s\ncase: %s", hdrLen, n, msg, journal)
+			}
+			got, err := refenc.Decode(ct, v.RefUnwrap(name))
+			if err != nil || !bytes.Equal(got, p) {
+				t.Fatalf("C01 interoperability violated: the reference decoder does not recover the plaintext of a document with a %d-byte header: err=%v\ncase: %s", hdrLen, err, journal)
+			}
+			sec.Case(true, vk.FP(journal), "headersize.accepted")
+			sec.Sample(func() any { return fmt.Sprintf("%s header=%d bytes", journal, hdrLen) })
+		}
+	}
+	sec.SetExhaustive()
 }
